@@ -78,9 +78,10 @@ PROPS["C04"] = {
     "clauses_without_theorem": ["handshake bytes cannot crash or hang the endpoint (net/http parsing; sampled)", "the inflater's own working memory is bounded (klauspost; the limit on its OUTPUT is Codec.decompress)"],
 }
 PROPS["C13"] = {
-    "theorems": ["Reader.delivered_within_limit", "Reader.oversize_frame_1009", "Reader.oversize_fragments_1009", "Reader.inflate_limit", "Reader.within_limit_delivered"],
-    "suites": ["read"],
-    "trusted": READ_TRUSTED + ["the real limited reader stops inflating once the limit is exceeded; the model inflates fully and compares (same verdict; the amount inflated before stopping is not modelled)"],
+    "modules": ["Gws.Props.C13", "Gws.Props.C13Limited"],
+    "theorems": ["Limited.copy_spec", "Limited.accepted_within_limit", "Limited.within_limit_accepted", "Limited.written_bounded", "Limited.final_chunk_counted", "Reader.delivered_within_limit", "Reader.oversize_frame_1009", "Reader.oversize_fragments_1009", "Reader.inflate_limit", "Reader.within_limit_delivered"],
+    "suites": ["read", "limited"],
+    "trusted": READ_TRUSTED + ["the streaming loop of Decompress (io.CopyBuffer = bytes.Buffer.ReadFrom through limitedReader) is Model/Limited, proved equivalent to 'total inflated size > limit' for every chunking and tied by the limited suite on the reads actually served; the read-path theorems use the total-size form (Codec.decompress)"],
 }
 PROPS["C06"] = {
     "modules": ["Gws.Props.SourceShapeConn", "Gws.Props.C06", "Gws.Props.C06Conc"],
@@ -127,7 +128,7 @@ PROPS["C02"] = {
     "theorems": ["Session.windows_in_sync", "Session.inSync_step", "Session.hist_is_compressed_payloads", "Session.send_dict_suffix",
                  "Spec.Inflate.bounded_window_suffices", "Spec.Inflate.history_prefix_irrelevant", "Spec.Inflate.history_extension_harmless",
                  "Spec.Inflate.window_determines_output", "Spec.Inflate.bounded_window_iff"],
-    "suites": ["sess:1", "sess:0", "win"],
+    "suites": ["sess:1", "sess:0", "win", "write:s on", "write:c on"],
     "trusted": ["klauspost/compress/flate: the compressor emits RFC 1951 whose back-references stay within its window and dictionary (Codec law L2), the inflater implements RFC 1951 (L3) - SAMPLED, not proved: every compressed frame in the read/sess/write suites goes through the real library and (read, write) through the Lean inflater",
                 "which frames are compressed and which window update follows which write: Session model, tied by the sess suite (all four windows read back through the accessor hook at quiescence)"],
     "clauses_without_theorem": ["the DEFLATE library's own conformance (L2/L3): sampled by the suites, not proved"],
